@@ -48,7 +48,41 @@ def opts(ctx):
                 max_stmts=5, max_depth=2, closure_fail_p=0.3, shadow_params=0.4)
 
 
+# programs aimed at hash-order dependence: inputs whose intermediate keys collide
+TARGETED = [
+    'tally!([decode_base64!("/w=="), decode_base64!("/g=="), decode_base64!("/g=="), "a", "a"])',
+    'tally!(.keys)',
+    'parse_cef!("CEF:0|a|b|c|d|e|1|cs1Label=foo cs1=v1 cs2Label=foo cs2=v2 cn1Label=foo cn1=3", translate_custom_fields: true)',
+    'flatten({"a": {"b": 1, "b.c": 2}, "a.b": {"c": 3}, "x": [{"y": 1}, {"y": 2}]})',
+    'parse_json!(s\'{"a": 1, "a": 2, "b": {"c": 1, "c": 2}}\')',
+    'parse_duration!("1h 2m 3s 4ms", "s")',
+    'parse_bytes!("1.5 GiB", "MiB")',
+    'unique(.keys)',
+    'compact(parse_key_value!("a=1 a=2 b=3 b=4"))',
+    'parse_query_string("a=1&a=2&b=3&a=4")',
+    'shannon_entropy("aabbccddeeffgghhiijjkkllmmnnooppqqrrssttuuvvwwxxyyzz0123456789", segmentation: "codepoint")',
+    'merge({"a": 1, "b": {"c": 1}}, {"b": {"d": 2}, "a": 2}, deep: true)',
+    'tag_types_externally({"b": 1, "a": [1, "x", {"k": null}]})',
+    'object_from_array([["a", 1], ["a", 2], ["b", 3]])',
+    'encode_key_value({"z": 1, "a": 2, "m": {"y": 1, "b": 2}})',
+    'encode_logfmt({"z": 1, "a": 2, "m": "x y"})',
+]
+
+
+def gen_targeted(ctx, rng):
+    from ..gen import values as gv
+    src = rng.choice(TARGETED)
+    events = []
+    for _ in range(6):
+        keys = [rng.choice([b"a", b"b", b"\xff", b"\xfe", b"\xc3", b"\xf0\x9f", b"ab"]) for _ in range(rng.randint(2, 8))]
+        events.append(enc({"keys": keys}))
+    return {"stmts": [["raw", src]], "events": events, "history": events[:2], "yield_mask": rng.getrandbits(63),
+            "targeted": True}
+
+
 def gen_case(ctx, rng):
+    if rng.random() < 0.15:
+        return gen_targeted(ctx, rng)
     c = fc.gen_full_case(rng, opts(ctx), 6)
     c["history"] = [enc(core_event(rng)) for _ in range(4)]
     c["yield_mask"] = rng.getrandbits(63)
@@ -60,13 +94,16 @@ def norm(resp):
 
 
 def fns_of(stmts):
+    if stmts and stmts[0][0] == "raw":
+        import re
+        return sorted(set(re.findall(r"([a-z_0-9]+)!?\(", stmts[0][1])))
     return sorted(k[5:] for k in A.node_kinds(stmts) if k.startswith("call:"))
 
 
 def run_case(ctx, case):
     stmts = case["stmts"]
     src = A.program_src(stmts)
-    base = {"src": src, "probe": False, "ext": {"event": CORE_SCHEMA},
+    base = {"src": src, "probe": False, "ext": None if case.get("targeted") else {"event": CORE_SCHEMA},
             "events": [{"e": e} for e in case["events"]], "history": [{"e": e} for e in case["history"]]}
     fns = fns_of(stmts)
     key_fns = tuple(f for f in fns if f not in ("probe",))[:4]
